@@ -73,6 +73,10 @@ Definition mismatches := mismatches_from 0.
 (* Flush: observed result against the model for "queue full for ever" *)
 Definition flush_full_result : fres * nat := flush_retry true (fun _ => FPutFull).
 
+(* the peer's Close with the io queue full: error? and where is the notification *)
+Definition peer_close_queue_full : bool * bool * bool :=
+  let s := pc_run true [PcEnvQ true; PcCas; PcNotify] in (pc_err s, in_queue s, in_sock s).
+
 Definition selftest : list (nat * Z) :=
   mismatches [ {| w_prefix := []; w_min := 1; w_helpers := [EAdd 5; EFin]; w_obs := 0 |};
                {| w_prefix := [EAdd 5; EFin]; w_min := 1; w_helpers := []; w_obs := 0 |};
